@@ -52,6 +52,39 @@ def ob_roundtrip(vc):
         vc.check_eq(o.value[1], rest, "roundtrip.rest")
 
 
+def ob_build_history(vc):
+    """build() after arbitrary earlier builds -- a history of three messages with equal or
+    different header fields and empty or non-empty payloads: every result is the layout of
+    its own message; nothing is carried over from one call to the next (natively this is
+    the search that runs when build() is found to keep state between calls)"""
+    m1 = SH.gen_message(vc, "m1")
+    ms = [m1]
+    for name in ("m2", "m3"):
+        if vc.bool(name + ".same_header_as_m1"):
+            vc.cover("same-header-again")
+            payload = vc.bytes(name + ".payload")
+            vc.assume(len(payload) + 8 <= 0xFFFFFFFF)
+            ms.append(
+                H.SOMEIPHeader(
+                    service_id=m1.service_id,
+                    method_id=m1.method_id,
+                    client_id=m1.client_id,
+                    session_id=m1.session_id,
+                    interface_version=m1.interface_version,
+                    message_type=m1.message_type,
+                    protocol_version=m1.protocol_version,
+                    return_code=m1.return_code,
+                    payload=payload,
+                )
+            )
+        else:
+            ms.append(SH.gen_message(vc, name))
+    k = 0
+    for m in ms:
+        vc.same_outcome(vc.outcome(vc.body(H.SOMEIPHeader.build), m), vc.outcome(SH.someip_build, m), "build.history[" + str(k) + "].refines")
+        k += 1
+
+
 def ob_build_raises_iff_unfit(vc):
     """a message whose fields do not fit fails with struct.error instead of emitting bytes"""
     m = SH.gen_message(vc, "m", fits=False)
@@ -172,7 +205,7 @@ def canary_length_field(vc):
     vc.check_eq(((b[4] * 256 + b[5]) * 256 + b[6]) * 256 + b[7], len(m.payload), "canary")
 
 
-HARNESSES = SH.REFINES + [ob_layout, ob_roundtrip, ob_build_raises_iff_unfit, ob_datagram_iteration, canary_length_field]
+HARNESSES = SH.REFINES + [ob_layout, ob_roundtrip, ob_build_history, ob_build_raises_iff_unfit, ob_datagram_iteration, canary_length_field]
 
 EXPECT_COVERS = {
     "ob_datagram_iteration": ["loop-exit", "delivered", "rejected", "SOMEIPDatagramProtocol.datagram_received.loop0.iteration"],"ob_roundtrip": ["parsed"], "ob_build_raises_iff_unfit": ["unfit"], "ob_parse_header_refines": ["accepted"]}
